@@ -1,1 +1,59 @@
-From Verif Require Import Shapes.Eval.
+(* C05 - SPARQL-based constraints report exactly their query's solutions, one result each.
+   Query evaluation is rdflib's and enters the model as data (the rows each declared query
+   returns for each focus/value node under the SHACL-SPARQL pre-bindings). Proved here is what
+   pySHACL itself does with those rows. *)
+From Coq Require Import List NArith Bool.
+From Verif Require Import Base.SetList Base.Terms Base.Vocab Paths.Path Shapes.AST Shapes.Leaf Shapes.Eval
+  Shapes.EvalProofs Shapes.SparqlProofs.
+Import ListNotations.
+
+(* The rows kept by an sh:sparql constraint are exactly the distinct solutions of its query:
+   every kept row is a row of the query, every row binding ?this/?path/?value is represented
+   (up to equality of all its bindings), ?failure is reported iff some row binds it ... *)
+Theorem C05_distinct_solutions : forall l,
+  (forall x, In x (dedup_sols l) -> In x l)
+  /\ (forall x, In x l -> violation_row x -> exists y, In y (dedup_sols l) /\ sol_failure y = false /\ same_sol x y)
+  /\ ((exists y, In y (dedup_sols l) /\ sol_failure y = true) <-> (exists x, In x l /\ sol_failure x = true)).
+Proof. exact dedup_sols_spec. Qed.
+Print Assumptions C05_distinct_solutions.
+
+(* ... and one result each: no two kept rows are the same solution, at most one failure row *)
+Theorem C05_one_result_each : forall l,
+  ForallOrdPairs (fun a b => (sol_failure a = true /\ sol_failure b = true) \/
+                             (sol_failure a = false /\ sol_failure b = false /\ same_sol a b) -> False)
+                 (dedup_sols l).
+Proof. exact dedup_sols_distinct. Qed.
+Print Assumptions C05_one_result_each.
+
+(* The results of the component are exactly one result per kept row of each active constraint
+   and focus node; focus, sh:value and sh:resultPath come from ?this/?value/?path ... *)
+Theorem C05_sparql_results : forall trig W nested g E s fvs ep cs cr,
+  evalc trig W nested g E s fvs ep (CSparql cs) = Ok cr ->
+  forall r, In r (snd cr) <->
+    exists sc f vs so, In sc cs /\ sc_deact sc = false /\ In (f, vs) fvs
+                       /\ In so (dedup_sols (sols_of (sc_sols sc) f)) /\ r = sparql_result s f so.
+Proof. exact sparql_constraint_results. Qed.
+Print Assumptions C05_sparql_results.
+
+(* ... and each result's messages are the declared templates instantiated with THAT solution's
+   own bindings (followed by the shape's declared messages) - for any number of results *)
+Theorem C05_own_bindings : forall s f so, rmsgs (sparql_result s f so) = sol_msgs so ++ smsgs s.
+Proof. exact sparql_messages_own. Qed.
+Print Assumptions C05_own_bindings.
+
+(* ASK validators of constraint components: one result per value node the query rejects *)
+Theorem C05_ask_component : forall trig W nested g E s fvs ep cc answers cr,
+  cc_val cc = VAsk answers ->
+  evalc trig W nested g E s fvs ep (CCustom cc) = Ok cr ->
+  forall r, In r (snd cr) <->
+    exists f vs v msgs, In (f, vs) fvs /\ In v vs /\ ask_of answers f v = Some (false, msgs)
+      /\ r = mkm s (cc_node cc) f (if is_property_shape s then None else Some v) (shape_rpath s) msgs.
+Proof. exact ask_component_results. Qed.
+Print Assumptions C05_ask_component.
+
+(* Non-vacuity: two rows differing only in ?other give two results with their own messages;
+   a repeated row gives one. *)
+Definition r1 := {| sol_failure := false; sol_this := Some (IRI 1); sol_path := None; sol_value := Some (IRI 2); sol_rest := 1; sol_msgs := [LIT 10 0 0] |}.
+Definition r2 := {| sol_failure := false; sol_this := Some (IRI 1); sol_path := None; sol_value := Some (IRI 2); sol_rest := 2; sol_msgs := [LIT 11 0 0] |}.
+Example C05_nonvacuous : map sol_msgs (dedup_sols [r1; r2; r1]) = [[LIT 10 0 0]; [LIT 11 0 0]].
+Proof. vm_compute. reflexivity. Qed.
